@@ -378,6 +378,198 @@ def _pem_body_end(pem):
     return k
 
 
+
+# ------------------------------------------------------------------ text representations of a PEM file (worker)
+def _pem_variants(pem):
+    """(variant, form, text) : the representations of one PEM file that the unchanged library reads as the same key
+    (probed on the clean tree; CR-only line ends, text after the END line and memoryview input are NOT among them)."""
+    crlf = pem.replace(b"\n", b"\r\n")
+    lines = pem.split(b"\n")
+
+    def body(f):
+        return b"\n".join(f(l) if l and not l.startswith(b"-----") else l for l in lines)
+    vs = [("lf", pem), ("crlf", crlf), ("lf-no-final-line-end", pem[:-1]), ("crlf-no-final-line-end", crlf[:-2]),
+          ("lf-trailing-blank-line", pem + b"\n"), ("crlf-trailing-blank-line", crlf + b"\r\n"),
+          ("lf-leading-blank-line", b"\n" + pem), ("crlf-leading-blank-line", b"\r\n" + crlf),
+          ("trailing-whitespace-line", pem + b"  \t\n"), ("leading-whitespace-line", b"   \n" + pem),
+          ("space-after-every-line", b"\n".join(l + b" " if l else l for l in lines)),
+          ("tab-after-body-lines", body(lambda l: l + b"\t")), ("space-before-body-lines", body(lambda l: b" " + l)),
+          ("blank-line-after-begin", lines[0] + b"\n\n" + b"\n".join(lines[1:])),
+          ("blank-line-before-end", b"\n".join(lines[:-2]) + b"\n\n" + lines[-2] + b"\n"),
+          ("first-line-crlf-rest-lf", lines[0] + b"\r\n" + b"\n".join(lines[1:]))]
+    out = []
+    for name, t in vs:
+        out.append((name, "bytes", t))
+        out.append((name, "str", t.decode("ascii")))
+    out.append(("lf", "bytearray", bytearray(pem)))
+    out.append(("crlf", "bytearray", bytearray(crlf)))
+    return out
+
+
+def _pemrep_curve(a):
+    cname, d = a
+    ecdsa, SigningKey, VerifyingKey, der, curves = _lib()
+    from register_crypto_plugin.ecdsa import ECDH
+    c = _curve(cname)
+    on = c.openssl_name
+    sk = SigningKey.from_secret_exponent(d, c)
+    vk = sk.verifying_key
+    pub, priv = list(_raw_of_vk(vk)), list(_priv_of_sk(sk))
+
+    def ecdh_priv(t):
+        e = ECDH(curve=c)
+        e.load_private_key_pem(t)
+        return e.private_key
+
+    def ecdh_pub(t):
+        e = ECDH(curve=c)
+        e.load_received_public_key_pem(t)
+        return e.public_key
+    loaders = [("VerifyingKey.from_pem", "spki", VerifyingKey.from_pem, vk.to_der(), vk.to_pem(), pub, []),
+               ("VerifyingKey.from_pem(explicit,compressed)", "spki", VerifyingKey.from_pem, vk.to_der("compressed", "explicit"),
+                vk.to_pem("compressed", "explicit"), pub, []),
+               ("SigningKey.from_pem(sec1)", "sec1", SigningKey.from_pem, sk.to_der(), sk.to_pem(), pub, priv),
+               ("SigningKey.from_pem(pkcs8)", "pkcs8", SigningKey.from_pem, sk.to_der(format="pkcs8"), sk.to_pem(format="pkcs8"), pub, priv),
+               ("Curve.from_pem(named)", "ecparams", curves.Curve.from_pem, c.to_der(), c.to_pem(), [], []),
+               ("Curve.from_pem(explicit)", "ecparams", curves.Curve.from_pem, c.to_der("explicit"), c.to_pem("explicit"), [], []),
+               ("ECDH.load_private_key_pem", "sec1", ecdh_priv, sk.to_der(), sk.to_pem(), pub, priv),
+               ("ECDH.load_received_public_key_pem", "spki", ecdh_pub, vk.to_der(), vk.to_pem(), pub, [])]
+    evs = []
+    for lname, kind, fn, dr, pem, epub, epriv in loaders:
+        if isinstance(pem, str):
+            pem = pem.encode("ascii")
+        for vname, form, text in _pem_variants(pem):
+            ev = {"op": "pemrep", "loader": lname, "kind": kind, "curve": on, "variant": vname, "form": form, "der": list(dr),
+                  "text": list(text.encode("ascii") if isinstance(text, str) else bytes(text)), "pub": epub, "priv": epriv,
+                  "dok": True, "dcurve": "", "dpub": [], "dpriv": [], "exc": "", "_cost": 3 + len(pem) // 8}
+            try:
+                k = fn(text)
+                if kind == "ecparams":
+                    ev["dcurve"] = k.openssl_name or k.name
+                else:
+                    kvk = getattr(k, "verifying_key", None) or k
+                    ev["dcurve"] = kvk.curve.openssl_name or kvk.curve.name
+                    ev["dpub"] = list(_raw_of_vk(kvk))
+                    ev["dpriv"] = list(_priv_of_sk(k)) if hasattr(k, "privkey") else []
+            except Exception as e:                              # noqa: BLE001 -- recorded, judged by the spec
+                ev["dok"], ev["exc"] = False, "%s: %s" % (type(e).__name__, str(e)[:80])
+            evs.append(ev)
+    return evs
+
+
+# ------------------------------------------------------------------ the plug-in's key classes as decoders
+def _proxy_events(r, th, keys256):
+    """register_crypto_plugin.PublicEccKeyProxy / PrivateEccKeyProxy, bec2format.crypto's registry functions and
+    EccDecryptor.decrypt on valid and damaged raw (64 byte) and DER keys; the raw and the DER route side by side."""
+    import register_crypto_plugin as plugin
+    from bec2format import crypto
+    from bec2format.bec2file import EccDecryptor
+    HEADER = bytes.fromhex("3059301306072A8648CE3D020106082A8648CE3D03010703420004")
+    signal.signal(signal.SIGVTALRM, _alarm)
+    Pub, Prv = plugin.PublicEccKeyProxy, plugin.PrivateEccKeyProxy
+
+    def pcall(fn, data):
+        signal.setitimer(signal.ITIMER_VIRTUAL, CPU_LIMIT_S)
+        try:
+            k = fn(data)
+            signal.setitimer(signal.ITIMER_VIRTUAL, 0)
+            rraw, rder = [], []
+            if hasattr(k, "to_raw_bin_fmt"):
+                rraw, rder = list(k.to_raw_bin_fmt()), list(k.to_der_fmt())
+            elif hasattr(k, "private_key"):
+                rraw = list(k.public_key.to_raw_bin_fmt())
+            return "ok", "", [], rraw, rder
+        except _CpuTimeout:
+            return "timeout", "", [], [], []
+        except BaseException as e:                              # noqa: the class is what is being recorded
+            signal.setitimer(signal.ITIMER_VIRTUAL, 0)
+            return "raise", type(e).__name__, [k.__name__ for k in type(e).__mro__], [], []
+        finally:
+            signal.setitimer(signal.ITIMER_VIRTUAL, 0)
+
+    evs = []
+
+    def rec(entry, fn, mk, pos, val, data, pair=None, pin=b""):
+        out, cls, mro, rraw, rder = pcall(fn, data)
+        ev = {"op": "proxy", "entry": entry, "mk": mk, "pos": pos, "val": val, "input": list(data), "out": out, "cls": cls, "mro": mro,
+              "rraw": rraw, "rder": rder, "pin": list(pin), "pout": "", "pcls": "", "pmro": [], "praw": [], "pder": [], "_cost": 1}
+        if pair is not None:
+            ev["pout"], ev["pcls"], ev["pmro"], ev["praw"], ev["pder"] = pcall(pair, pin)
+        evs.append(ev)
+
+    def vals_of(b, many):
+        vs = [b ^ 1, b ^ 0x80, 0, 0xFF] + ([(b + 1) & 255, 0x04, 0x7F, r.randrange(256), r.randrange(256)] if many else [])
+        seen, out = set(), []
+        for v in vs:
+            if v != b and v not in seen:
+                seen.add(v)
+                out.append(v)
+        return out
+
+    raws = [_raw_of_vk(_mk_sk("NIST256p", d).verifying_key) for _, d in keys256]
+    for entry, fn, pair in (("raw", Pub.create_from_raw_fmt, Pub.create_from_der_fmt),
+                            ("registry-raw", crypto.create_public_ecc_key_from_raw_fmt, crypto.create_public_ecc_key_from_der_fmt)):
+        for raw in raws:
+            rec(entry, fn, "valid", 0, 0, raw, pair, HEADER + raw)
+            rec(entry, fn, "valid-bytearray", 0, 0, bytearray(raw), pair, HEADER + raw)
+        raw = raws[0]
+        full = entry == "raw"
+        for k in range(0, 64, 1 if full else 5):
+            rec(entry, fn, "trunc", k, 0, raw[:k], pair, HEADER + raw[:k])
+        for v in (0, 255, 4, 48):
+            rec(entry, fn, "ext", 64, v, raw + bytes([v]), pair, HEADER + raw + bytes([v]))
+        for pos in range(0, 64, 1 if full else 7):
+            for v in vals_of(raw[pos], th and full):
+                m = raw[:pos] + bytes([v]) + raw[pos + 1:]
+                rec(entry, fn, "mut", pos, v, m, pair, HEADER + m)
+        vk0 = _mk_sk("NIST256p", keys256[0][1]).verifying_key
+        for what, m in (("all-zero", bytes(64)), ("all-ff", b"\xff" * 64), ("x-only", raw[:32]), ("uncompressed-form", b"\x04" + raw),
+                        ("compressed-form", vk0.to_string("compressed")), ("hybrid-form", vk0.to_string("hybrid")), ("x-and-y-swapped", raw[32:] + raw[:32]),
+                        ("last-bit-flipped", raw[:63] + bytes([raw[63] ^ 1]))):
+            rec(entry, fn, what, 0, 0, m, pair, HEADER + m)
+    dr = HEADER + raws[0]
+    for entry, fn in (("der", Pub.create_from_der_fmt), ("registry-der", crypto.create_public_ecc_key_from_der_fmt)):
+        full = entry == "der"
+        rec(entry, fn, "valid", 0, 0, dr)
+        for k in range(0, len(dr), 1 if full else 6):
+            rec(entry, fn, "trunc", k, 0, dr[:k])
+        for v in (0, 255, 48):
+            rec(entry, fn, "ext", len(dr), v, dr + bytes([v]))
+        for pos in range(len(dr)):
+            if pos < 27 and full:
+                vs = [v for v in range(256) if v != dr[pos]]             # the constant header: every value
+            elif pos < 27 or full or pos % 8 == 0:
+                vs = vals_of(dr[pos], False)
+            else:
+                vs = []
+            for v in vs:
+                rec(entry, fn, "mut", pos, v, dr[:pos] + bytes([v]) + dr[pos + 1:])
+    sk = _mk_sk("NIST256p", keys256[0][1])
+    dec = EccDecryptor(0, Prv(sk))
+    blk = dec.encrypt(bytes(range(16)))
+    if len(blk) != 81 or blk[0] != 4 or dec.decrypt(blk) != bytes(range(16)):
+        evs.append({"op": "proxy", "entry": "decrypt", "mk": "valid-block-not-decrypted", "pos": 0, "val": 0, "input": list(blk), "out": "none",
+                    "cls": "", "mro": [], "rraw": [], "rder": [], "pin": [], "pout": "", "pcls": "", "pmro": [], "praw": [], "pder": [], "_cost": 1})
+    else:
+        rec("decrypt", dec.decrypt, "valid", 0, 0, blk, crypto.create_public_ecc_key_from_raw_fmt, blk[1:65])
+        for k in range(len(blk)):
+            rec("decrypt", dec.decrypt, "trunc", k, 0, blk[:k])
+        for pos in range(1, 65):
+            for v in vals_of(blk[pos], False)[:4 if th else 2]:
+                m = blk[:pos] + bytes([v]) + blk[pos + 1:]
+                rec("decrypt", dec.decrypt, "mut", pos, v, m, crypto.create_public_ecc_key_from_raw_fmt, m[1:65])
+    for fmt in ("ssleay", "pkcs8"):
+        pd = sk.to_der(format=fmt)
+        rec("priv-der", Prv.create_from_der_fmt, "valid", 0, 0, pd)
+        for k in range(len(pd)):
+            rec("priv-der", Prv.create_from_der_fmt, "trunc", k, 0, pd[:k])
+        for pos in range(len(pd)):
+            for v in vals_of(pd[pos], False) + [0x7F]:
+                if v != pd[pos]:
+                    rec("priv-der", Prv.create_from_der_fmt, "mut", pos, v, pd[:pos] + bytes([v]) + pd[pos + 1:])
+    return evs
+
+
 # ------------------------------------------------------------------ der.py primitives
 def _prim_events(r, tier):
     ecdsa, SigningKey, VerifyingKey, der, curves = _lib()
@@ -565,6 +757,15 @@ def run(tier):
                 kev.extend(evs)
                 for idx, args, data, post in jobs:
                     pending.append((kev[off + idx], ossl.add(args, data=bytes(data)), post))
+            # ---------------- the same PEM files in their other text representations (CRLF, blank lines, str/bytes, ...)
+            if th:
+                pcurves = [c.name for c in ws]
+            else:
+                pcurves = ["NIST256p"] + r.sample([c.name for c in ws if c.name != "NIST256p"], 2)
+            for evs in pool.map(_pemrep_curve, [(cn, keys[cn][0][1]) for cn in pcurves]):
+                kev.extend(evs)
+            # ---------------- the plug-in's key classes as decoders (raw and DER route, valid and damaged)
+            kev.extend(_proxy_events(r, th, keys["NIST256p"]))
             # ---------------- openssl round B jobs for its own keys
             odec_jobs = []
             for (cname, k), jid in gen.items():
@@ -825,6 +1026,24 @@ def run(tier):
         e = first(lambda e: e["op"] == "curve")
         e["lib"] = "reject" if e["lib"] == "ok" else "ok"
         canaries["curve: decisions differ"] = (e, "on-curve-decision-differs")
+        # (built on a copy that is first made a GOOD event whatever the library answered, then corrupted in one field,
+        #  so that a changed library cannot take the self-test down with it)
+        VE = ["ValueError", "Exception", "BaseException", "object"]
+        e = first(lambda e: e["op"] == "pemrep" and e["variant"] == "crlf" and e["form"] == "bytes" and e["kind"] == "sec1")
+        e.update(dok=False, dpub=[], dpriv=[], dcurve="")
+        canaries["pemrep: a CRLF text reported as rejected"] = (e, "pem-representation-rejected")
+        e = first(lambda e: e["op"] == "pemrep" and e["variant"] == "crlf-trailing-blank-line" and e["form"] == "bytes" and e["kind"] == "spki")
+        e.update(dok=True, dcurve=e["curve"], dpub=e["pub"], dpriv=e["priv"])
+        e["text"] = e["text"][:45] + [e["text"][45] ^ 3] + e["text"][46:]
+        canaries["pemrep: a text with one changed base64 character"] = (e, "text-is-no-representation-of-the-pem")
+        e = first(lambda e: e["op"] == "proxy" and e["entry"] == "raw" and e["mk"] == "trunc" and e["pos"] == 40)
+        e.update(out="raise", rraw=[], rder=[], pout="raise", pcls="ValueError", pmro=VE, praw=[], pder=[],
+                 cls="MalformedPointError", mro=["MalformedPointError", "AssertionError", "Exception", "BaseException", "object"])
+        canaries["proxy: a truncated raw key reported as refused with MalformedPointError"] = (e, "proxy-undocumented-error")
+        e = first(lambda e: e["op"] == "proxy" and e["entry"] == "raw" and e["mk"] == "mut" and e["pos"] == 10)
+        e.update(out="raise", cls="ValueError", mro=VE, rraw=[], rder=[], pout="raise", pcls="UnexpectedDER",
+                 pmro=["UnexpectedDER", "ValueError", "Exception", "BaseException", "object"], praw=[], pder=[])
+        canaries["proxy: raw and DER route refuse with different classes"] = (e, "routes-differ-in-error-class")
         pcan = dict(next(e for e in pev if e["op"] == "int" and len(e["mag"]) > 8))
         pcan["out"] = pcan["out"][:2] + pcan["out"][3:] + [0]
         for k, ev in enumerate(kev):
@@ -892,6 +1111,19 @@ def run(tier):
                 key = "C19:openssl-decode:%s:%s" % (e["kind"], clause)
                 what = "openssl's %s encoding (%s, %s, %s): %s" % (e["kind"], e["curve"], e["cpe"], e["pe"], clause)
                 data = _short(e)
+            elif op == "pemrep":
+                if clause == "text-is-no-representation-of-the-pem":
+                    raise MachineryError("harness produced a PEM variant (%s/%s) that the specification does not regard as the same text" % (e["variant"], e["form"]))
+                key = "C19:%s:%s:%s/%s" % (e["loader"], clause, e["variant"], e["form"])
+                what = "%s on the %s text (%s) of a PEM file it reads in canonical form: %s %s" % (e["loader"], e["variant"], e["form"], clause, e["exc"])
+                data = _short(e, 2000)
+            elif op == "proxy":
+                if clause == "harness-pairing":
+                    raise MachineryError("proxy event with an inconsistent paired input")
+                key = "C19:plugin.%s:%s:%s" % (e["entry"], clause, e["cls"] or e["pcls"] or e["out"])
+                what = ("crypto plug-in entry '%s' on a %s input (%s): %s -> %s %s; paired route -> %s %s"
+                        % (e["entry"], e["mk"], bytes(e["input"]).hex(), clause, e["out"], e["cls"], e["pout"], e["pcls"]))
+                data = _short(e, 400)
             elif op == "hdr2":
                 key = "C19:PublicEccKey.to_raw_bin_fmt:%s" % clause
                 what = "BEC2 key class loaded from a legal DER form (%s): %s" % (e["src"], clause)
@@ -919,7 +1151,7 @@ def run(tier):
         cnt = {}
         for e in kev[:len(kev) - len(can_ids)]:
             cnt[e["op"]] = cnt.get(e["op"], 0) + 1
-        n_spec = sum(cnt.get(k, 0) for k in ("enc", "pt", "pem", "hdr"))
+        n_spec = sum(cnt.get(k, 0) for k in ("enc", "pt", "pem", "hdr", "hdr2"))
         n_orc = sum(cnt.get(k, 0) for k in ("ossl", "odec", "curve"))
         mstat = {}
         for e in kev:
@@ -933,13 +1165,26 @@ def run(tier):
         stk = {k: v for k, v in stk.items() if k != "events"}
         rep.add_trace("Trace_DER (der.py primitives: lengths, INTEGER, OID, wrappers, damaged primitives)", stp, len(pev) - 1, True, {"by_op": pcnt})
         rep.add_trace("Trace_KeyEnc/encodings (library DER/PEM/point/scalar encodings of %d keys on 17 curves + bec2format header: bytes and round trip)"
-                      % sum(len(v) for v in keys.values()), stk, n_spec, True, {"by_op": {k: cnt.get(k, 0) for k in ("enc", "pt", "pem", "hdr")}})
+                      % sum(len(v) for v in keys.values()), stk, n_spec, True, {"by_op": {k: cnt.get(k, 0) for k in ("enc", "pt", "pem", "hdr", "hdr2")}})
         rep.add_trace("Trace_KeyEnc/openssl (library->openssl re-encoding, openssl->library decoding, on-curve decisions)", {}, n_orc, False,
                       {"by_op": {k: cnt.get(k, 0) for k in ("ossl", "odec", "curve")}, "openssl_invocations": ossl.total,
                        "validated_in": "same TLC run as Trace_KeyEnc/encodings", "damaged_points_on_curve_per_openssl": n_curve_ok})
         rep.add_trace("Trace_KeyEnc/damaged (every truncation, extensions, single-byte mutations through from_der/from_pem/from_string)", {},
                       cnt.get("mut", 0), True, {"curves": mcurves, "encodings": len(bases), "outcomes": mstat,
                                                 "validated_in": "same TLC run as Trace_KeyEnc/encodings"})
+        pstat = {}
+        for e in kev:
+            if e["op"] == "proxy" and e["tid"] not in can_ids:
+                k = "%s/%s/%s" % (e["entry"], "damaged" if e["mk"] not in ("valid", "valid-bytearray") else "valid", e["cls"] or e["out"])
+                pstat[k] = pstat.get(k, 0) + 1
+        rep.add_trace("Trace_KeyEnc/pem-text (PEM loaders of keys, EC PARAMETERS and ECDH on every other text representation of the file: "
+                      "CRLF, blank / white-space lines, final line end, str / bytes / bytearray)", {}, cnt.get("pemrep", 0), True,
+                      {"curves": pcurves, "loaders": sorted({e["loader"] for e in kev if e["op"] == "pemrep"}),
+                       "variants": sorted({"%s/%s" % (e["variant"], e["form"]) for e in kev if e["op"] == "pemrep"}),
+                       "validated_in": "same TLC run as Trace_KeyEnc/encodings"})
+        rep.add_trace("Trace_KeyEnc/plugin (PublicEccKeyProxy / PrivateEccKeyProxy / registry functions / EccDecryptor.decrypt on valid and damaged "
+                      "raw and DER keys; raw route and DER route side by side)", {}, cnt.get("proxy", 0), True,
+                      {"outcomes": pstat, "validated_in": "same TLC run as Trace_KeyEnc/encodings"})
         rep.cov["keys"] = {c: [k for k, _ in v] for c, v in keys.items()}
         for pred in (lambda e: e["op"] == "enc" and e["kind"] == "pkcs8" and e["curve"] == "secp112r1" and e["cpe"] == "named_curve",
                      lambda e: e["op"] == "hdr",
@@ -961,6 +1206,11 @@ def run(tier):
         "PKCS#8 DER of openssl is obtained by base64-decoding its PEM output (openssl pkey writes the traditional format for -outform DER)",
         "for SEC1/PKCS#8 with explicit parameters and a compressed/hybrid public key openssl is asked for the uncompressed form "
         "(the library leaves the generator uncompressed, openssl cannot write that mix); compared with the library's uncompressed encoding",
+        "PEM text representations: the set that the unchanged library reads as the same key (LF/CRLF/mixed line ends, blank and white-space lines, "
+        "white space at line ends, final line end or none, str/bytes/bytearray); CR-only line ends, text after the END line and memoryview are not in it; "
+        "the specification regards two texts as the same file iff they agree after removing HT LF CR SP",
+        "plug-in key classes: every refusal is a ValueError, except UnknownCurveError for a well-formed SubjectPublicKeyInfo of another named curve "
+        "(decided by ParseSPKI in the specification); PrivateEccKeyProxy.create_from_der_fmt is judged on the library's documented classes",
         "mutated encodings whose shape is still valid are judged on the error class only, accept/reject only through the sampled on-curve events",
         "a decoder call is limited to %d CPU seconds (virtual timer, independent of machine load)" % CPU_LIMIT_S,
         "TLC integer arithmetic and sequence operators",
